@@ -48,17 +48,17 @@ def run(W, chk):
     A = W.run("epoch_manager", "query", ("CurrentEpoch",))
     ep = vfield(A.ret, "epoch") if A.ret is not None else EMPTY
     idm = atoms_map(vfield(ep, "id"))
-    want_id = {"env.block.time": {"sub", "div_floor"}, "Store(CONFIG).epoch_config.genesis_epoch": {"sub", "div_floor"},
-               "Store(CONFIG).epoch_config.duration": {"div_floor"}}
+    want_id = {"env.block.time": {"sub", "sub:l", "div_floor", "div:l"}, "Store(CONFIG).epoch_config.genesis_epoch": {"sub", "sub:r", "div_floor", "div:l"},
+               "Store(CONFIG).epoch_config.duration": {"div_floor", "div:r"}}
     idc = {o: ops for o, ops in idm.items() if o.startswith("Const(")}
     idd = {o: ops for o, ops in idm.items() if not o.startswith("Const(")}
     chk.expect(idd == want_id and set(idc) <= {"Const(1_u64)"}, "PROV-formula", "current id",
                "id = (now - genesis) div_floor duration", "current epoch id is computed as %s" % {k: sorted(v) for k, v in idm.items()}, A.entry)
     stm = atoms_map(vfield(ep, "start_time"))
     std = {o: ops for o, ops in stm.items() if not o.startswith("Const(")}
-    want_st = {"Store(CONFIG).epoch_config.genesis_epoch": {"add", "sub", "div_floor", "mul"},
-               "Store(CONFIG).epoch_config.duration": {"add", "mul", "div_floor"},
-               "env.block.time": {"add", "mul", "sub", "div_floor"}}
+    want_st = {"Store(CONFIG).epoch_config.genesis_epoch": {"add", "sub", "sub:r", "div_floor", "div:l", "mul"},
+               "Store(CONFIG).epoch_config.duration": {"add", "mul", "div_floor", "div:r"},
+               "env.block.time": {"add", "mul", "sub", "sub:l", "div_floor", "div:l"}}
     chk.expect(std == want_st and not [o for o in stm if o.startswith("Const(") and o != "Const(1_u64)"], "PROV-formula", "current start_time",
                "start(current) = genesis + id * duration with the same id", "current start_time is computed as %s" % {k: sorted(v) for k, v in stm.items()}, A.entry)
     A2 = W.run("epoch_manager", "query", ("Epoch",))
